@@ -28,7 +28,7 @@ CHECKS.update({
   text="Same exploration as C01 with GPU flags; a monitor inside the simulated executor checks at every dispatch: worker exists, has no unfinished sequence, satisfies the GPU requirement, task never dispatched before, every consumed dataset exists somewhere and is on the target host or a transfer to it is outstanding; at the end every task was dispatched exactly once.", note=CTRL_NOTE + " worker-wakeup: the receive loop of runner.entrypoint.entrypoint is lifted from the AST of the current source into a step function (harness error if the loop no longer has the expected shape) and driven with every arrival order of <=5 (thorough 7) messages from {command, publication of each of its two inputs, unrelated publication, unrelated purge, own output}: the sequence starts at most once, only after both inputs have arrived, and always once command and inputs have all arrived (no lost wake-up when the command overtakes a publication). act-step: one call of controller.act.act on every assignment with <=3 (thorough 4) preparation entries, each local or on one of two other hosts, in any order: exactly the remote entries are commanded as transfers, in order, followed by exactly one task sequence."),
  "C03": dict(category="other", design_ref="DESIGN.md §4 C03",
   technique="solver-driven exhaustive path exploration (CrossHair/z3) of the real controller: bounded liveness monitors",
-  text="Same exploration. The simulated bridge raises if the controller waits while nothing is outstanding or pending work can never become enabled; a counter around plan bounds the scheduling rounds; any exception escaping run is a bookkeeping crash. On return all tasks ran, all requested outputs have values and shutdown was called once. Includes the empty job, isolated tasks and more components than hosts.", note=CTRL_NOTE + " Fairness = every pending action eventually executes (default tail)."),
+  text="Same exploration. The simulated bridge raises if the controller waits while nothing is outstanding or pending work can never become enabled; a counter around plan bounds the scheduling rounds; any exception escaping run is a bookkeeping crash. On return all tasks ran, all requested outputs have values and shutdown was called once. Includes the empty job, isolated tasks, families of disjoint chains and stars against fewer / as many / more hosts, and a requested output whose value is falsy. plan-step: one call of scheduler.api.plan with a local no-op preparation never downgrades the only available copy of a dataset.", note=CTRL_NOTE + " Fairness = every pending action eventually executes (default tail)."),
  "C04": dict(category="other", design_ref="DESIGN.md §4 C04",
   technique="solver-driven exhaustive path exploration (CrossHair/z3) of the real controller with a ground-truth data monitor",
   text="Same exploration with a monitor on every purge/transmit/fetch against the simulator's ground truth: purge only of data held, after every consumer ran, after a requested value reached the caller, with no transfer/fetch from that host outstanding; transmit/fetch only from a host that holds the dataset, both when commanded and when executed.", note=CTRL_NOTE),
@@ -115,7 +115,7 @@ CHECKS.update({
   note="NOT covered (needs fault injection on live processes, a different technique family): kill -9 at a chosen point, leftover child processes or /dev/shm segments after exit, signal/atexit behaviour, bounded wall-clock time. Children are inert objects with chosen exit codes; shm client shutdown is a recorder."),
  "C07": dict(category="other", design_ref="DESIGN.md §4 C07",
   technique="solver-driven exhaustive exploration (CrossHair/z3 decision tree) of command lists, per-frame fault patterns, pool-job completion order and clock through two real DataServer objects",
-  text="Two real DataServer objects (recv_loop stepped; thread pool replaced by deferred jobs; per-host fake shm store) plus a controller-side Listener/ReliableSender. Command lists of 1-2 (thorough 3) from transmit / redundant transmit / fetch / purge at the target / purge at the source after arrival; the first F transmissions of payload, acknowledgement and command frames are each delivered / dropped / duplicated / delayed by solver decision; S solver-chosen steps (server iteration, controller iteration, run a pending job, clock jump beyond the 4 s resend grace, issue next command) and then a fair tail. Assert: the target holds exactly one copy with the source's bytes and deser_fun and announced it exactly once; redundant transfers add no announcement; every fetch delivers the same bytes to the controller exactly once; after a purge at the target the dataset is absent even if payloads arrive later; no data server crashes, no job is left running, no transfer failure is reported. Decision trees exhausted in the quick tier.",
+  text="Two real DataServer objects (recv_loop stepped; thread pool replaced by deferred jobs; per-host fake shm store) plus a controller-side Listener/ReliableSender. Command lists of 1-2 (thorough 3) from transmit / redundant transmit / fetch / purge at the target / purge at the source after arrival; the first F transmissions of payload, acknowledgement and command frames are each delivered / dropped / duplicated / delayed by solver decision; S solver-chosen steps (server iteration, controller iteration, run a pending job, clock jump beyond the 4 s resend grace, issue next command) and then a fair tail. Assert: the target holds exactly one copy with the source's bytes and deser_fun and announced it exactly once; redundant transfers add no announcement; every fetch delivers the same bytes to the controller exactly once; after a purge at the target the dataset is absent even if payloads arrive later; no data server crashes, no job is left running, no transfer failure is reported. Decision trees exhausted in the quick tier. shm-client-roundtrip: scripts of 1-3 calls of the real cascade.shm.client (allocate+write+close, get+read+close, purge, redundant allocate; two keys; default / custom / empty decoding function) against the real LocalServer dispatch and Manager over an in-memory datagram socket: bytes and decoding function read equal those written, conflicts and unknown keys are reported, no reader stays registered.",
   note="Trusted: z3/CrossHair, pickle, fakezmq contract. A pool job runs atomically. The controller purges a source only after the target announced arrival (C04). Outside: >2 hosts, payload splitting, real thread timing."),
 })
 
